@@ -365,6 +365,10 @@ def cases(draw, max_components=5, loops=True):
                 history.append(["iter", draw(st.booleans())])
                 iters_left -= 1
         history.append(["cycle", draw(st.booleans())])
+    if dowhile is not None and draw(st.integers(0, 3)) == 0:
+        # a restart: the instance is loaded read-only, the restarted run adds a loop iteration, then it is loaded again
+        history = [["cycle", False], ["iter", True]] + ([["iter", True]] if draw(st.booleans()) else []) + \
+                  [["cycle", draw(st.booleans()), draw(st.booleans())]]      # 3rd field: explicit store before the load?
     return jsonable({"flowir": F, "dowhile": dowhile, "files": files, "platform": platform, "user_vars": user_vars,
                      "history": history})
 
